@@ -18,14 +18,14 @@ RULE = ('seeded plans: 2-8 sessions opened (accepted and rejected), closed by '
 REQUIRED_PROBES = {'quick': ['api_dead_id', 'api_live_id', 'table_checked'],
                    'thorough': ['api_dead_id', 'api_live_id',
                                 'table_checked']}
-PROFILE = _gen.profile(max_sessions=8, p_late_open=0.3, I=[1.0, 2.0], T=[0.5, 1.0],
+PROFILE = _gen.profile(max_sessions=8, p_late_open=0.3, I=[1.0, 2.0], T=[0.5, 1.0, 2.0, 2.5],
                        p_upgrade=0.4, p_sabotage=0.3, sends=(0, 2),
                        client_msgs=(0, 1), p_end=0.7,
                        end_kinds=['close_packet', 'ws_close', 'drop',
                                   'vanish', 'vanish'],
                        p_app_disconnect=0.15, p_disconnect_all=0.0,
                        allow_polling_app_disconnect=0.0,
-                       p_handler_fault=0.1, handler_actions=['raise'],
+                       p_handler_fault=0.15, handler_actions=['raise', 'sleep'],
                        p_reject=0.25, p_no_monitor=0.0, p_ws_fault=0.15,
                        stalled_handshakes=True)
 
